@@ -914,6 +914,60 @@ def sharded_close_part(R, quick):
     shutil.rmtree(root, ignore_errors=True)
 
 
+def damaged_gzip_part(R, quick):
+    """A stored .gz chunk / file whose bytes are damaged INSIDE the deflate stream while its length is the final
+    one (a tail of zeros or of 0xff left by an interrupted write after the size was set, a run of bytes overwritten
+    in the middle): for every cut point the reader returns the stored content or raises DataAccessError - never
+    another exception, never other bytes.  Oracle only (zlib is an external component for the model)."""
+    import glob as _glob
+    from neuroglancer_scripts.file_accessor import FileAccessor
+    from neuroglancer_scripts.accessor import DataAccessError
+    rng = R.rng
+    coords = (0, 64, 0, 64, 0, 64)
+    for rep in range(2 if quick else 12):
+        base = os.path.join(R.tmp, f"dmg{rep}")
+        # compressible but structured content: literal runs, repeats and a few incompressible bytes, so that the
+        # deflate stream holds stored, fixed and dynamic blocks depending on the level
+        content = (b"".join(bytes([rng.randrange(4)]) * rng.randrange(1, 40) for _ in range(40))
+                   + bytes(rng.getrandbits(8) for _ in range(rng.randrange(0, 200))))
+        acc = FileAccessor(base, flat=bool(rep % 2), gzip=True, compresslevel=[9, 1, 6, 0][rep % 4])
+        acc.store_chunk(content, "k", coords, overwrite=True)
+        acc.store_file("mesh/frag7", content, mime_type="application/octet-stream", overwrite=True)
+        for what in ("chunk", "file"):
+            paths = [p for p in _glob.glob(os.path.join(base, "**", "*.gz"), recursive=True)
+                     if (os.path.basename(p) == "frag7.gz") == (what == "file")]
+            if len(paths) != 1:
+                R.notes.append("damaged_gzip_part: stored .gz object not found where expected")
+                continue
+            path = paths[0]
+            orig = open(path, "rb").read()
+            step = 1 if len(orig) <= 400 or not quick else 2
+            for fill, fname in ((b"\x00", "zeros"), (b"\xff", "ones")):
+                bad = {}
+                for k in range(0, len(orig), step):
+                    with open(path, "wb") as fh:
+                        fh.write(orig[:k] + fill * (len(orig) - k))
+                    rd = FileAccessor(base, flat=bool(rep % 2), gzip=True)
+                    try:
+                        got = rd.fetch_chunk("k", coords) if what == "chunk" else rd.fetch_file("mesh/frag7")
+                        out = "ok" if bytes(got) == content else "other-bytes"
+                    except DataAccessError:
+                        out = "DataAccessError"
+                    except Exception as exc:  # noqa: BLE001
+                        out = type(exc).__name__
+                    R.count(f"damaged-gzip:{what}:{fname}:{out}")
+                    if out not in ("ok", "DataAccessError"):
+                        bad.setdefault(out, []).append(k)
+                case = {"kind": "damaged gzip object", "object": what, "fill": fname, "stored_len": len(orig),
+                        "compresslevel": [9, 1, 6, 0][rep % 4], "content": content}
+                R.case(case, nontrivial=True)
+                if bad:
+                    R.violation("a damaged .gz object is read as other bytes or raises something else than "
+                                "DataAccessError", case, {k_: v[:8] for k_, v in bad.items()})
+            with open(path, "wb") as fh:
+                fh.write(orig)
+
+
 def run(R):
     R.rule = RULE
     quick = R.tier == "quick"
@@ -928,6 +982,7 @@ def run(R):
     http_part(R, quick)
     fsize_sweep_part(R, quick)
     spool_vanish_part(R, quick)
+    damaged_gzip_part(R, quick)
 
 
 def replay(R, payload):
